@@ -62,13 +62,13 @@ def recentred_points(rng, nx, ny, Lx, Ly):
             (rng.uniform(0.05, 0.95) * Lx, rng.uniform(0.05, 0.95) * Ly)]
 
 
-def probe_recentred(S, base, rng, fields, rel, tol):
+def probe_recentred(S, base, rng, fields, rel, tol, force=None):
     """C07_mirror_x/_y_recentred on the real code: dispersion mode, double storage, measurement point
     other than the origin.  The reflected measurement point is the reflection about the DOMAIN CENTRE,
     xm' = xmx - xm (ym' = ymx - ym), not about the cell grid.  halo = 0: the returned grid is the
     periodic grid, so the unpaired Nyquist column/row can be removed by an FFT of the outputs (with an
     odd clamped mode count nothing is removed and the returned arrays themselves are compared);
-    a second request with a halo is compared directly when both clamped mode counts are odd."""
+    a second request WITH a halo is compared directly along every axis whose clamped mode count is odd."""
     out = []
     ny, nx = base["q0"].shape
     Lx, Ly = base["domain"]
@@ -78,33 +78,49 @@ def probe_recentred(S, base, rng, fields, rel, tol):
     rc = dict(base, footprint=False, precision="double", halo=0.0,
               analytic=bool(const and rng.random() < 0.5),
               meas_pt=rng.choice(recentred_points(rng, nx, ny, Lx, Ly)))
+    dx, dy = Lx / nx, Ly / ny
+    halo2 = rng.choice([dx, 1.3 * dx, 2 * dy])
+    if force:  # replay of a recorded failing request
+        rc["meas_pt"], rc["analytic"], halo2 = tuple(force["meas_pt"]), bool(force["analytic"]), force.get("halo2", halo2)
     xm, ym = rc["meas_pt"]
-    variants = [("", rc, lambda F: strip_nyquist(F, nlx, nly))]
-    if nx % 2 == 1 and ny % 2 == 1:
-        # odd padded sizes and a mode request above them: the clamp gives odd counts (C07_mirror_*_recentred_odd), any halo
-        dx, dy = Lx / nx, Ly / ny
-        variants.append(("-halo-odd", dict(rc, halo=rng.choice([dx, 1.3 * dx, 2 * dy]), modes=(64, 64)), lambda F: F))
-    for tag, r, flt in variants:
+    forced = dict(meas_pt=list(rc["meas_pt"]), analytic=rc["analytic"], halo2=halo2)
+    # (tag, request, filter applied to both sides, axes whose mirror is compared)
+    variants = [("", rc, lambda F: strip_nyquist(F, nlx, nly), "xy")]
+    odd_axes = ("x" if nx % 2 == 1 else "") + ("y" if ny % 2 == 1 else "")
+    if odd_axes:
+        # odd padded size along an axis and a mode request above the padded sizes: the clamp gives an odd
+        # count on that axis, nothing is unpaired there (C07_mirror_*_recentred_odd) — any halo
+        variants.append(("-halo-odd", dict(rc, halo=halo2, modes=(64, 64)), lambda F: F, odd_axes))
+    for tag, r, flt, axes in variants:
         c0, f0 = fields(r)
         bg = r["bg"]
-        mx = dict(r, q0=r["q0"][:, ::-1].copy(), profiles=(-u, v, Kx, Ky, Kz), meas_pt=(Lx - xm, ym))
-        c1, f1 = fields(mx)
-        d = max(rel(flt(f1), flt(f0[:, :, ::-1])), rel(flt(c1 - bg), flt(c0[:, :, ::-1] - bg)))
-        if d > tol:
-            out.append(("mirror-x-recentred" + tag,
-                        "re-centred dispersion request (meas_pt %r, mirrored request at (xmx - xm, ym) = %r): mirrored problem differs from the mirrored fields by %.3g beyond the Nyquist components"
-                        % (r["meas_pt"], mx["meas_pt"], d)))
-        my = dict(r, q0=r["q0"][::-1, :].copy(), profiles=(u, -v, Kx, Ky, Kz), meas_pt=(xm, Ly - ym))
-        c2, f2 = fields(my)
-        d = max(rel(flt(f2), flt(f0[:, ::-1, :])), rel(flt(c2 - bg), flt(c0[:, ::-1, :] - bg)))
-        if d > tol:
-            out.append(("mirror-y-recentred" + tag,
-                        "re-centred dispersion request (meas_pt %r, mirrored request at (xm, ymx - ym) = %r): mirrored problem differs by %.3g beyond the Nyquist components"
-                        % (r["meas_pt"], my["meas_pt"], d)))
+        # deviations are measured against the magnitude of the UNFILTERED fields: after removing the Nyquist
+        # components of a (2, 2)-mode request only the mean mode is left, which is rounding noise for a zero-mean source
+        sf, scn = max(float(np.abs(f0).max()), 1e-300), max(float(np.abs(c0 - bg).max()), 1e-300)
+
+        def rel(a, b, scale):
+            return float(np.abs(a - b).max()) / scale
+        if "x" in axes:
+            mx = dict(r, q0=r["q0"][:, ::-1].copy(), profiles=(-u, v, Kx, Ky, Kz), meas_pt=(Lx - xm, ym))
+            c1, f1 = fields(mx)
+            d = max(rel(flt(f1), flt(f0[:, :, ::-1]), sf), rel(flt(c1 - bg), flt(c0[:, :, ::-1] - bg), scn))
+            if d > tol:
+                out.append(("mirror-x-recentred" + tag,
+                            "re-centred dispersion request (meas_pt %r, halo %r, modes %r; mirrored request at (xmx - xm, ym) = %r): mirrored problem differs from the mirrored fields by %.3g beyond the Nyquist components"
+                            % (r["meas_pt"], r["halo"], r["modes"], mx["meas_pt"], d), forced))
+        if "y" in axes:
+            my = dict(r, q0=r["q0"][::-1, :].copy(), profiles=(u, -v, Kx, Ky, Kz), meas_pt=(xm, Ly - ym))
+            c2, f2 = fields(my)
+            d = max(rel(flt(f2), flt(f0[:, ::-1, :]), sf), rel(flt(c2 - bg), flt(c0[:, ::-1, :] - bg), scn))
+            if d > tol:
+                out.append(("mirror-y-recentred" + tag,
+                            "re-centred dispersion request (meas_pt %r, halo %r, modes %r; mirrored request at (xm, ymx - ym) = %r): mirrored problem differs by %.3g beyond the Nyquist components"
+                            % (r["meas_pt"], r["halo"], r["modes"], my["meas_pt"], d), forced))
     return out
 
 
-def probe(S, case, rng):
+def probe(S, case, rng, force=None):
+    """list of (signature, detail[, forced re-centred request]) of the symmetry statements that fail on this case"""
     out = []
     ny, nx = case["q0"].shape
     lv = sc.levels_list(case)
@@ -127,24 +143,31 @@ def probe(S, case, rng):
         return float(np.abs(a - b).max() / max(np.abs(b).max(), 1e-300))
 
     c0, f0 = fields(base)
+    # Nyquist-filtered comparisons are measured against the magnitude of the UNFILTERED fields (with a (2, 2)-mode
+    # request only the mean mode survives the filter, and that is rounding noise for a zero-mean source)
+    sf, scn = max(float(np.abs(f0).max()), 1e-300), max(float(np.abs(c0 - base["bg"]).max()), 1e-300)
+
+    def rels(a, b, scale):
+        return float(np.abs(a - b).max()) / scale
+
     # mirror in x: flip the source, negate u; tower mirrored
     mx = dict(base, q0=base["q0"][:, ::-1].copy(), profiles=(-u, v, Kx, Ky, Kz))
     if base["footprint"]:
         mx["meas_pt"] = ((nx - 1) * dx - base["meas_pt"][0], base["meas_pt"][1])
     c1, f1 = fields(mx)
-    d = max(rel(strip_nyquist(f1, nlx, nly), strip_nyquist(f0[:, :, ::-1], nlx, nly)),
-            rel(strip_nyquist(c1 - base["bg"], nlx, nly), strip_nyquist(c0[:, :, ::-1] - base["bg"], nlx, nly)))
+    d = max(rels(strip_nyquist(f1, nlx, nly), strip_nyquist(f0[:, :, ::-1], nlx, nly), sf),
+            rels(strip_nyquist(c1 - base["bg"], nlx, nly), strip_nyquist(c0[:, :, ::-1] - base["bg"], nlx, nly), scn))
     if d > tol:
         out.append(("mirror-x", "mirrored problem differs from the mirrored fields by %.3g beyond the Nyquist components" % d))
     my = dict(base, q0=base["q0"][::-1, :].copy(), profiles=(u, -v, Kx, Ky, Kz))
     if base["footprint"]:
         my["meas_pt"] = (base["meas_pt"][0], (ny - 1) * dy - base["meas_pt"][1])
     c2, f2 = fields(my)
-    d = max(rel(strip_nyquist(f2, nlx, nly), strip_nyquist(f0[:, ::-1, :], nlx, nly)),
-            rel(strip_nyquist(c2 - base["bg"], nlx, nly), strip_nyquist(c0[:, ::-1, :] - base["bg"], nlx, nly)))
+    d = max(rels(strip_nyquist(f2, nlx, nly), strip_nyquist(f0[:, ::-1, :], nlx, nly), sf),
+            rels(strip_nyquist(c2 - base["bg"], nlx, nly), strip_nyquist(c0[:, ::-1, :] - base["bg"], nlx, nly), scn))
     if d > tol:
         out.append(("mirror-y", "mirrored problem differs by %.3g beyond the Nyquist components" % d))
-    out += probe_recentred(S, base, rng, fields, rel, tol)
+    out += probe_recentred(S, base, rng, fields, rel, tol, force)
     # transpose
     tr = dict(base, q0=base["q0"].T.copy(), profiles=(v, u, Ky, Kx, Kz), domain=(base["domain"][1], base["domain"][0]),
               modes=(nly, nlx), meas_pt=(base["meas_pt"][1], base["meas_pt"][0]))
@@ -178,12 +201,13 @@ def oracle(ctx, hints):
     found = {}
     for case in pool:
         try:
-            for sig, detail in probe(S, case, ctx.rng):
-                found.setdefault(sig, (detail, case))
+            for sig, detail, *extra in probe(S, case, ctx.rng):
+                found.setdefault(sig, (detail, case, extra[0] if extra else None))
         except Exception as e:
-            found.setdefault("solver-raises:" + type(e).__name__, (str(e), case))
-    return [{"signature": sig, "what": "C07 %s: %s on %r" % (sig, d, sc.describe(c)), "replay": {"case": sc.full(c), "detail": d}}
-            for sig, (d, c) in found.items()]
+            found.setdefault("solver-raises:" + type(e).__name__, (str(e), case, None))
+    return [{"signature": sig, "what": "C07 %s: %s on %r" % (sig, d, sc.describe(c)),
+             "replay": dict({"case": sc.full(c), "detail": d}, **({"recentred": x} if x else {}))}
+            for sig, (d, c, x) in found.items()]
 
 
 def replay(body):
@@ -192,8 +216,8 @@ def replay(body):
     S = sc.impl()
     res = []
     for s in range(3):
-        res += probe(S, sc.from_full(body["case"]), random.Random(s))
-    for sig, d in res:
+        res += probe(S, sc.from_full(body["case"]), random.Random(s), body.get("recentred"))
+    for sig, d, *_ in res:
         print("FAILS", sig, d)
     if not res:
         print("holds on this input")
